@@ -23,7 +23,7 @@ import (
 	"strings"
 )
 
-const repo = "/repo"
+var repo = "/repo"
 const shimPath = "github.com/Tnze/go-mc/verifshim/"
 
 func die(f string, a ...any) {
@@ -37,6 +37,9 @@ func main() {
 	rewrite := flag.String("rewrite", "", "comma separated repo-relative files to rewrite (controlled mode only)")
 	add := flag.String("add", "", "comma separated dst=src pairs (dst repo-relative)")
 	flag.Parse()
+	if r := os.Getenv("VERIF_REPO"); r != "" {
+		repo = r
+	}
 	if *work == "" {
 		die("need -work")
 	}
@@ -74,8 +77,10 @@ func main() {
 	} else {
 		addDir("sched", filepath.Join(root, "shim/schedfree"))
 	}
-	if _, err := os.Stat(filepath.Join(root, "shim/vnet")); err == nil {
+	if *mode == "controlled" {
 		addDir("vnet", filepath.Join(root, "shim/vnet"))
+	} else {
+		addDir("vnet", filepath.Join(root, "shim/vnetfree"))
 	}
 	if *rewrite != "" && *mode == "controlled" {
 		for _, rel := range strings.Split(*rewrite, ",") {
